@@ -6,6 +6,10 @@ use tokio::sync::oneshot;
 #[path = "tests/store_tests.rs"]
 pub mod store_tests;
 
+#[cfg(all(test, feature = "hotstuff_verif"))]
+#[path = "/verif/replay/store.rs"]
+mod verif_replay;
+
 pub type StoreError = rocksdb::Error;
 type StoreResult<T> = Result<T, StoreError>;
 
